@@ -19,6 +19,40 @@ def sumSlice (f : Nat → Rat) (lo hi : Nat) : Rat := ((List.range (hi - lo)).ma
 def storeReversed {α : Type} (out : Nat → α) (lo hi : Nat) (src : Nat → α) (_lo2 hi2 : Nat) : Nat → α :=
   fun j => if lo ≤ j ∧ j < hi then src (hi2 - 1 - (j - lo)) else out j
 
+/-- Python `int(x)` of a float: truncation toward zero -/
+def pyInt (q : Rat) : Int := if 0 ≤ q then q.floor else -((-q).floor)
+
+/-- Python `a // b` on floats: the floor of the exact quotient, as a float (exact here) -/
+def floorDivQ (a b : Rat) : Rat := ((a / b).floor : Int)
+
+/-! ### 2-D arrays (`Nat → Nat → α`, row then column) and integer arrays -/
+
+/-- `a[r] = row` -/
+def setRow {α : Type} (a : Nat → Nat → α) (r : Nat) (row : Nat → α) : Nat → Nat → α :=
+  fun i => if i = r then row else a i
+
+/-- `old[lo:hi] = src[slo : slo + (hi - lo)]` -/
+def sliceInto {α : Type} (old : Nat → α) (lo hi : Nat) (src : Nat → α) (slo : Nat) : Nat → α :=
+  fun k => if lo ≤ k ∧ k < hi then src (slo + (k - lo)) else old k
+
+/-- `old[lo:hi] += src[slo : slo + (hi - lo)]` -/
+def addSliceInto (old : Nat → Rat) (lo hi : Nat) (src : Nat → Rat) (slo : Nat) : Nat → Rat :=
+  fun k => if lo ≤ k ∧ k < hi then old k + src (slo + (k - lo)) else old k
+
+/-- `np.max(a)` over the first `n` cells (`a[0]` for `n = 0`, where NumPy raises) -/
+def maxArr (a : Nat → Int) (n : Nat) : Int := (List.range n).foldl (fun m i => max m (a i)) (a 0)
+def minArr (a : Nat → Int) (n : Nat) : Int := (List.range n).foldl (fun m i => min m (a i)) (a 0)
+
+/-- `np.max(a)` of an `r × c` array -/
+def maxArr2 (a : Nat → Nat → Int) (r c : Nat) : Int :=
+  (List.range r).foldl (fun m i => (List.range c).foldl (fun m j => max m (a i j)) m) (a 0 0)
+def minArr2 (a : Nat → Nat → Int) (r c : Nat) : Int :=
+  (List.range r).foldl (fun m i => (List.range c).foldl (fun m j => min m (a i j)) m) (a 0 0)
+
+/-- `np.sum(a, axis=0)` of an array with `rows` rows -/
+def colSum (a : Nat → Nat → Rat) (rows : Nat) : Nat → Rat :=
+  fun k => ((List.range rows).map (fun r => a r k)).sum
+
 /-! ### strict evaluation for the executable twins
 
 A loop whose state is a functional array builds, in compiled code, a chain of closures that re-runs the
@@ -45,6 +79,24 @@ instance {α : Type} : Forceable (Nat → α) where
     by_cases h : j < (tabulate m f).size
     · rw [dif_pos h]
       simp [tabulate]
+    · rw [dif_neg h]
+
+/-- 2-D arrays: the first `memo × memo` cells tabulated -/
+instance (priority := high) forceable2D {α : Type} : Forceable (Nat → Nat → α) where
+  Rep := Array (Array α) × (Nat → Nat → α)
+  toRep m f := (tabulate m (fun r => tabulate m (f r)), f)
+  ofRep r := fun i j => if h : i < r.1.size then (if h2 : j < r.1[i].size then r.1[i][j] else r.2 i j) else r.2 i j
+  ofRep_toRep m f := by
+    funext i j
+    show (if h : i < (tabulate m (fun r => tabulate m (f r))).size then
+            (if h2 : j < (tabulate m (fun r => tabulate m (f r)))[i].size then (tabulate m (fun r => tabulate m (f r)))[i][j] else f i j)
+          else f i j) = f i j
+    by_cases h : i < (tabulate m (fun r => tabulate m (f r))).size
+    · rw [dif_pos h]
+      by_cases h2 : j < (tabulate m (fun r => tabulate m (f r)))[i].size
+      · rw [dif_pos h2]
+        simp [tabulate]
+      · rw [dif_neg h2]
     · rw [dif_neg h]
 
 instance : Forceable Rat := ⟨Rat, fun _ s => s, fun s => s, fun _ _ => rfl⟩
